@@ -28,8 +28,8 @@ LEAN_MODULES = ["MpfVerif.Props.C15"]
 PROPS_FILE = "MpfVerif/Props/C15.lean"
 GEN = []
 MANIFEST = {
-  "text": "Proof on a Lean model of the data-manager writer thread (program counter over its blocking points: sleep, stop check, dirty wait, busy spin, clear, deep copy, temp-file write, rename, final flush) composed with an environment that calls save_all, requests shutdown, makes the temp-file write or the rename fail, or crashes the process at any point: (1) after every interleaving the file content is the start-up content or one of the values handed to save_all (temp file then atomic rename) - never torn; (2) in fault-free runs, whenever the thread has exited with the dirty flag clear the file equals the last saved value, and from every state reached before shutdown the thread exits within 12 of its own steps after shutdown with the file equal to the last saved value (final flush); (3) in every crash-free run FileManager.is_busy is clear whenever the thread is outside FileManager.save, and after any number of failed writes/renames a later save_all is on disk within 10 thread steps. The model is tied to mpf/core/data_manager.py + file_manager.py by running the real _writing_thread in a real thread under a scheduler that plays generated interleavings with injected I/O errors and crashes and parses the file after every step.",
-  "note": "Trusted: Lean kernel + {propext, Classical.choice, Quot.sound}; the hand-written model Model/Writer.lean (validated only by differential runs); atomicity of os.replace; ruamel.yaml dump/load; the rendezvous patches (time.sleep, threading.Event methods, copy.deepcopy, the YAML interface's save, os.replace) that turn the real thread's blocking points into scheduler steps. Not covered: power loss without fsync, several data managers racing on the unsynchronised global is_busy flag, shutdown() not joining the thread, machine-variable expiry/reload; a failed write is not retried (its value stays unwritten until the next save_all).",
+  "text": "Proof on a Lean model of the data-manager writer thread (program counter over its blocking points: sleep, stop check, dirty wait, busy spin, clear, read of the data, temp-file write, rename, final flush) composed with an environment that calls save_all, requests shutdown, makes the temp-file write or the rename fail, or crashes the process at any point: (1) after every interleaving the file content is the start-up content or one of the values handed to save_all (temp file then atomic rename) - never torn; (2) in fault-free runs, whenever the thread has exited with the dirty flag clear the file equals the last saved value, and from every state reached before shutdown the thread exits within 12 of its own steps after shutdown with the file equal to the last saved value (final flush); (3) in every crash-free run FileManager.is_busy is clear whenever the thread is outside FileManager.save, and after any number of failed writes/renames a later save_all is on disk within 10 thread steps; (4) the (name, value) pairs reloaded at the next boot from the machine-variable file are exactly the variables marked persistent, unaltered, whose expiry time is unset or not before the boot time. The models are tied to mpf/core/data_manager.py + file_manager.py by running the real _writing_thread in a real thread under a scheduler that plays generated interleavings with injected I/O errors and crashes and parses the file after every step (plus a real reload by a fresh DataManager), and to machine_vars.py by differential runs of configure/set/remove/reboot histories through a real YAML file.",
+  "note": "Trusted: Lean kernel + {propext, Classical.choice, Quot.sound}; the hand-written models Model/Writer.lean and Model/MachineVars.lean (validated only by differential runs); atomicity of os.replace; ruamel.yaml dump/load; the rendezvous patches (time.sleep, threading.Event methods, the read of DataManager.data, the YAML interface's save, os.replace) that turn the real thread's blocking points into scheduler steps. Not covered: power loss without fsync, several data managers racing on the unsynchronised global is_busy flag, shutdown() not joining the (daemon) writer thread, config-declared machine_vars sections; a failed write is not retried (its value stays unwritten until the next save_all); a reloaded variable loses its expiry until it is configured again.",
   "technique": "Lean 4 theorems (invariants over all interleavings by induction on the op list, bounded-progress by case analysis on the program counter) + differential correspondence with the real writer thread under a deterministic scheduler",
   "translated": False,
  }
@@ -37,14 +37,18 @@ RULE = ("cases: random interleavings of 6-30 ops over save_all(v) / thread step 
         "(before anything is written, or after half of the YAML text) or at the rename / shutdown / crash (thread "
         "abandoned at its current blocking point, incl. half-written temp file), followed by a wedge tail (fresh save + 10 "
         "thread steps) and a shutdown tail (shutdown + 12 thread steps) where applicable; payloads are nested dicts "
-        "(str/int/float/bool/None/list) so a half-written file never equals a saved value. non-trivial = the thread "
-        "completed at least one write or a fault was injected; distinct = the op list")
+        "(str/int/float/bool/None/list) so a half-written file never equals a saved value; (b) machine-variable histories "
+        "of 4-16 ops over configure(persist, expire_secs)/set(value incl. None)/remove/reboot at times chosen around the "
+        "expiry instants (equal, +-1 s), every reboot going through a real YAML file. non-trivial = the thread completed "
+        "at least one write or a fault was injected (a), an expiry or an intermediate reboot occurs (b); distinct = the "
+        "op list")
 TRUSTED = [
     "Model/Writer.lean is hand-written; tied to mpf/core/data_manager.py (_writing_thread, save_all) and "
     "mpf/core/file_manager.py (save) by correspondence on every run",
     "modelled, not verified: os.replace is atomic; ruamel.yaml round-trips the generated payloads; threading.Event; "
     "the harness-process patches that make the real thread rendezvous with the scheduler at its blocking points",
-    "a stub machine object (config paths, thread_stopper) around the real DataManager",
+    "a stub machine object (config paths, thread_stopper, clock) around the real DataManager / MachineVariables",
+    "Model/MachineVars.lean is hand-written; tied to mpf/core/machine_vars.py by correspondence on every run",
 ]
 ASSUMPTIONS = [
     "one data manager / one writer thread (FileManager.is_busy is an unsynchronised global shared by all of them)",
